@@ -345,11 +345,8 @@ func genHdr(rng *hk.Rand, p *c11Plan, credChoices []int) {
 func (p c11Plan) coqHdr() string { return coqHdrs(p.hdr) }
 
 func coqHdrs(h [5]int) string {
-	var xs []string
-	for k := range c11Hdr {
-		xs = append(xs, hk.CoqPair(c11HdrCoq[k], hk.CoqNat(h[k])))
-	}
-	return hk.CoqList(xs)
+	// compact: H [a; b; c; d; e] = the five names of c11Hdr with these counts (Model/C11Run.v)
+	return fmt.Sprintf("(H [%d; %d; %d; %d; %d]%%nat)", h[0], h[1], h[2], h[3], h[4])
 }
 
 func noZone(rng *hk.Rand, f func() authority) authority {
